@@ -6,6 +6,7 @@
 From Coq Require Import List Arith Bool NArith ZArith Lia.
 From Pike Require Import Model.LRU Model.Dispatcher Model.Sys Model.Multi.
 From Pike Require Import Proofs.LRUProofs Proofs.DispatcherProofs Proofs.SysInv Proofs.SysStep.
+From Pike Require Proofs.SysTheorems.
 Import ListNotations.
 
 (** ** per-key facts about [Sys.step] *)
@@ -72,6 +73,28 @@ Proof. simpl. intros H. inversion H; subst. destruct (has_store s && ok); reflex
 
 Lemma step_crash_cur s s' : step s Crash = Some s' -> cur s' = None.
 Proof. simpl. intros H. inversion H; subst. reflexivity. Qed.
+
+(** the clock of a per-key state moves only with [Tick] *)
+Lemma step_now s l s' : step s l = Some s' ->
+  now s' = match l with Tick d => (now s + d)%Z | _ => now s end.
+Proof.
+  intros H. destruct l as [pass| d | i c | ok | | | sc].
+  - simpl in H. inversion H; subst. destruct pass; reflexivity.
+  - simpl in H. destruct (0 <=? d)%Z; inversion H; subst; reflexivity.
+  - cbn [step] in H.
+    destruct (nth_error (ts s) i) as [p|] eqn:Ep; [|discriminate].
+    destruct p; try discriminate;
+      repeat match type of H with
+             | Some _ = Some _ => inversion H; subst; clear H; reflexivity
+             | None = Some _ => discriminate
+             | context [match ?x with _ => _ end] => destruct x eqn:?
+             | context [if ?x then _ else _] => destruct x eqn:?
+             end.
+  - simpl in H. inversion H; subst. destruct (has_store s && ok); reflexivity.
+  - simpl in H. inversion H; subst. reflexivity.
+  - simpl in H. inversion H; subst. reflexivity.
+  - simpl in H. destruct (has_store s); inversion H; subst; reflexivity.
+Qed.
 
 Section MultiProofs.
   Context {K : Type}.
@@ -488,6 +511,121 @@ Section MultiProofs.
     pose proof (live_keys_bounded m ks I ND Hl) as B.
     pose proof (resident_le hash _ (mi_disp _ I)) as R.
     rewrite El, Ez in R. specialize (R H1). lia.
+  Qed.
+
+  (** ** one clock for all keys *)
+  Definition Clk (m : mstate) : Prop := forall k, now (sys_of m k) = m_now m.
+
+  Lemma clk_init d t0 h st0 : Clk (minit d t0 h st0).
+  Proof. intros k. reflexivity. Qed.
+
+  Lemma key_step_clk m k l m' : Clk m -> key_step keqb m k l = Some m' ->
+    (forall d, l <> Tick d) -> Clk m'.
+  Proof.
+    intros C H NT k2. unfold key_step in H. destruct (step (sys_of m k) l) as [s'|] eqn:E; [|discriminate].
+    inversion H; subst m'; clear H. simpl.
+    destruct (keqb k2 k) eqn:E2.
+    - apply keqb_spec in E2. subst k2. rewrite sys_of_set_same. rewrite (step_now _ _ _ E).
+      destruct l; try apply C. exfalso. eapply NT; reflexivity.
+    - assert (k2 <> k) by (intros ->; rewrite keqb_refl' in E2; discriminate).
+      rewrite sys_of_set_other by assumption. apply C.
+  Qed.
+
+  Lemma mstep_clk m l m' : Clk m -> mstep m l = Some m' -> Clk m'.
+  Proof.
+    intros C H. destruct l as [k pass | d | k i c | k ok | | k sc]; simpl in H.
+    - eapply key_step_clk; eauto. discriminate.
+    - destruct (all_step (Tick d) (m_keys m)) as [ks|] eqn:A; [|discriminate].
+      destruct (0 <=? d)%Z eqn:Hd; [|discriminate]. inversion H; subst m'; clear H.
+      intros k. pose proof (all_step_assoc _ _ _ A k) as P. pose proof (C k) as Ck.
+      unfold Multi.sys_of in *; cbn [m_keys m_now m_hfp m_store m_disp] in *.
+      destruct (assoc k (m_keys m)) as [s|].
+      + destruct P as (s' & E & E'). rewrite E'. rewrite (step_now _ _ _ E). rewrite Ck. reflexivity.
+      + rewrite P. reflexivity.
+    - destruct (at_lookup (sys_of m k) i).
+      + destruct (get_http_cache keqb hash (m_disp m) k) as [[id hit] d'].
+        set (ev := evicted keqb (m_disp m) d' (shard_index hash (m_disp m) k)) in *.
+        assert (C1 : Clk (evict_all (set_disp m d') ev)).
+        { intros k2. rewrite evict_all_sys, sys_of_set_disp.
+          destruct (evict_all_params ev (set_disp m d')) as (_ & Pn & _). rewrite Pn. simpl.
+          destruct (mem k2 ev); apply C. }
+        eapply key_step_clk; [exact C1 | exact H | discriminate].
+      + eapply key_step_clk; eauto. discriminate.
+    - assert (C1 : Clk (set_disp m (remove_http_cache keqb hash (m_disp m) k))) by (intros k2; apply C).
+      eapply key_step_clk; [exact C1 | exact H | discriminate].
+    - destruct (all_step Crash (m_keys m)) as [ks|] eqn:A; [|discriminate]. inversion H; subst m'; clear H.
+      intros k. pose proof (all_step_assoc _ _ _ A k) as P. pose proof (C k) as Ck.
+      unfold Multi.sys_of in *; cbn [m_keys m_now m_hfp m_store m_disp] in *.
+      destruct (assoc k (m_keys m)) as [s|].
+      + destruct P as (s' & E & E'). rewrite E'. rewrite (step_now _ _ _ E). exact Ck.
+      + rewrite P. reflexivity.
+    - eapply key_step_clk; eauto. discriminate.
+  Qed.
+
+  Theorem clock_shared d t0 h st0 ls m : mrun (minit d t0 h st0) ls = Some m -> forall k, now (sys_of m k) = m_now m.
+  Proof.
+    assert (G : forall m0, Clk m0 -> mrun m0 ls = Some m -> Clk m).
+    { induction ls as [|l r IH]; simpl; intros m0 C0 H.
+      - inversion H; subst; exact C0.
+      - destruct (mstep m0 l) eqn:E; [|discriminate]. eapply IH; [eapply mstep_clk; eauto | exact H]. }
+    intros H. apply (G _ (clk_init d t0 h st0) H).
+  Qed.
+
+  (** ** a lookup never evicts the key it is for *)
+  Lemma lookup_keeps_own m k : DInv hash (m_disp m) ->
+    let d' := snd (get_http_cache keqb hash (m_disp m) k) in
+    sys_of (evict_all (set_disp m d') (evicted keqb (m_disp m) d' (shard_index hash (m_disp m) k))) k = sys_of m k.
+  Proof.
+    intros DI. cbv zeta. pose proof (lookup_shard_keys (m_disp m) k DI) as L. cbv zeta in L.
+    destruct L as (_ & Lk & _ & _). rewrite evict_all_sys, sys_of_set_disp.
+    destruct (mem k _) eqn:M; [|reflexivity].
+    apply mem_In in M. unfold evicted in M. apply filter_In in M. destruct M as [_ M].
+    apply negb_true_iff in M. apply mem_In in Lk. unfold Multi.mem in *. congruence.
+  Qed.
+
+  (** ** progress: while any request of any key is unfinished, some request of
+      some key can take a step (no schedule of the whole cache strands one) *)
+  Theorem composed_progress m :
+    MInv m -> (exists k j p, nth_error (ts (sys_of m k)) j = Some p /\ Pike.Proofs.SysTheorems.finished p = false) ->
+    exists k i c m', mstep m (MRun k i c) = Some m'.
+  Proof.
+    intros I (k & j & p & Hj & Hf).
+    destruct (Pike.Proofs.SysTheorems.no_deadlock (sys_of m k) (kreach_inv _ _ _ (mi_reach _ I k)) (ex_intro _ j (ex_intro _ p (conj Hj Hf))))
+      as (i & c & s' & Hs).
+    exists k, i, c. simpl. destruct (at_lookup (sys_of m k) i).
+    - pose proof (lookup_keeps_own m k (mi_disp _ I)) as E. cbv zeta in E.
+      destruct (get_http_cache keqb hash (m_disp m) k) as [[id hit] d']. simpl in E.
+      unfold key_step. rewrite E, Hs. eauto.
+    - unfold key_step. rewrite Hs. eauto.
+  Qed.
+
+  (** ** purge in the composed cache *)
+  Theorem composed_purge m k ok m' :
+    MInv m -> mstep m (MPurge k ok) = Some m' ->
+    live m' k = false /\ held m' k = false /\
+    (m_store m = true -> ok = true -> has_store (sys_of m k) = true -> store (sys_of m' k) = SNone).
+  Proof.
+    intros I H. pose proof (mstep_inv _ _ _ I H) as I'.
+    simpl in H. unfold key_step in H. rewrite sys_of_set_disp in H.
+    destruct (step (sys_of m k) (Purge ok)) as [s'|] eqn:E; [|discriminate].
+    inversion H; subst m'; clear H.
+    assert (L : live (set_sys (set_disp m (remove_http_cache keqb hash (m_disp m) k)) k s') k = false).
+    { unfold Multi.live. rewrite sys_of_set_same. rewrite (step_purge_cur _ _ _ E). reflexivity. }
+    split; [exact L|]. split; [rewrite <- (mi_couple _ I'); exact L|].
+    intros _ Hok Hs. rewrite sys_of_set_same. simpl in E. inversion E; subst s'. rewrite Hs, Hok. reflexivity.
+  Qed.
+
+  (** ** restart of the composed cache: every key loses its resident entry and
+      keeps exactly what the store holds for it *)
+  Theorem composed_crash m m' : mstep m MCrash = Some m' ->
+    forall k, live m' k = false /\ store (sys_of m' k) = store (sys_of m k).
+  Proof.
+    intros H k. simpl in H.
+    destruct (all_step Crash (m_keys m)) as [ks|] eqn:A; [|discriminate]. inversion H; subst m'; clear H.
+    pose proof (all_step_assoc _ _ _ A k) as P. unfold Multi.live, Multi.sys_of in *; cbn [m_keys m_now m_hfp m_store m_disp] in *.
+    destruct (assoc k (m_keys m)) as [s|].
+    - destruct P as (s' & E & E'). rewrite E'. simpl in E. inversion E; subst s'. split; reflexivity.
+    - rewrite P. split; reflexivity.
   Qed.
 
   (** ** isolation: a step addressed to key [k] changes another key's protocol
